@@ -331,7 +331,7 @@ template <typename T>
 template <typename T>
 [[nodiscard]] constexpr auto operator*(T const& lhs, complex<T> const& rhs) -> complex<T>
 {
-    return complex<T>(lhs) *= rhs;
+    return complex<T>(rhs) *= lhs;
 }
 
 template <typename T>
